@@ -90,7 +90,7 @@ PROPS = {
     },
     "C03": {
         "module": "MiniMcmcVerif.Props.C03Uniform",
-        "obligations": [NU + n for n in ["doubling_inv", "transition_next_state", "transition_ends", "skeleton_indep_sel", "selection_uniform", "buildTree_succ", "bt_stop", "bt_go", "buildTree_counts", "buildTree_prime_mem", "buildTree_sel_suffix", "buildTree_prime_admissible",
+        "obligations": [NU + n for n in ["doubling_inv", "transition_next_state", "transition_ends", "loop_result", "transition_statistic", "skeleton_indep_sel", "selection_uniform", "buildTree_succ", "bt_stop", "bt_go", "buildTree_counts", "buildTree_prime_mem", "buildTree_sel_suffix", "buildTree_prime_admissible",
                                          "buildTree_s_no_divergence", "buildTree_size", "buildTree_leaves_chain", "buildTree_alpha_range", "doubling_pos",
                                          "adopted_has_admissible", "loop_invariant"]],
         "rel32": 3e-3, "abs32": 1e-3, "rel64": 2e-5, "abs64": 2e-6,
@@ -99,7 +99,8 @@ PROPS = {
                       "leapfrog trajectory from its start in its direction (k-th point = k+1 steps; outer/inner ends = last/first), 2^j of them when complete; n_alpha is their number, n' the number of slice-admissible ones, alpha the sum of "
                       "min(1, exp(joint - joint0)); the candidate is one of them and is slice-admissible whenever n' > 0; s' = true implies no point diverged (joint > logu - 1000); alpha/n_alpha lies in [0,1]; after a doubling the position is the "
                       "old one or the candidate of a subtree with s' = true, adopted only if u < min(1, n'/n) (which forces n' > 0); loop invariant for the whole transition, assembled into transition_next_state: whenever a transition terminates, its final position is the "
-                      "start position or the position of a phase point z with logu < joint(z) that is k >= 1 leapfrog steps of size +eps or -eps from the start point (both trajectory ends are leapfrog iterates of it). Tied to nuts.rs by replaying every traced transition "
+                      "start position or the position of a phase point z with logu < joint(z) that is k >= 1 leapfrog steps of size +eps or -eps from the start point (both trajectory ends are leapfrog iterates of it), and the reported statistic alpha/n_alpha is the mean of min(1, exp(joint - joint0)) over the points of the subtree built by the last doubling, in [0,1] "
+                      "(transition_statistic). Tied to nuts.rs by replaying every traced transition "
                       "(momentum, Exp(1) draw, every direction / selection / accept uniform from the hook) and direct build_tree calls at Float with closed-form gradients.",
         "level_note": "Uniform selection: the structure of a subtree is independent of the selection uniforms (skeleton_indep_sel) and, with the event u < r having probability r under a uniform draw, every admissible visited point of a "
                       "subtree with n' > 0 is its candidate with probability exactly 1/n', every inadmissible one with probability 0 (selection_uniform). Termination of the doubling loop is not a theorem (fuel). Comparisons that change under a rounding-sized perturbation of the inputs are classified indeterminate.",
@@ -217,9 +218,10 @@ PROPS = {
         "assumptions": [],
     },
     "C11": {
-        "module": "MiniMcmcVerif.Props.C11Unbounded",
-        "obligations": [ST + n for n in ["sumSqDev_eq", "sumSqDev_shift_head", "rhatSq_shift", "rhat_unbounded", "splitcat_spec", "varplus_eq", "rhatSq_eq", "Bof_nonneg", "rhatSq_ge", "mean_affine", "withinVar_affine", "rhat_affine_inv",
+        "module": "MiniMcmcVerif.Props.C11Median",
+        "obligations": [ST + n for n in ["desc_counts", "basic_median_spec", "basic_var_nonneg", "sumSqDev_eq", "sumSqDev_shift_head", "rhatSq_shift", "rhat_unbounded", "splitcat_spec", "varplus_eq", "rhatSq_eq", "Bof_nonneg", "rhatSq_ge", "mean_affine", "withinVar_affine", "rhat_affine_inv",
                                          "rhat_chain_perm_inv", "rhat_param_local", "sortDesc_perm", "sortDesc_sorted", "basic_minmax_spec"]],
+        "level_extra": "basic_stats: the reported median is the upper median of the inputs (at least floor(len/2)+1 inputs are >= it and at least len-floor(len/2) are <= it, ties and input order irrelevant), min/max bound every input, the variance (ddof 1) is non-negative.",
         "rel32": 2e-3, "abs32": 1e-6,
         "level_text": "Theorems (any ordered field, any number/length of chains): splitcat yields 2c half-chains of length n/2 (first/last n/2 draws, odd middle dropped); the value computed is var+/W with "
                       "var+ = (n-1)/n W + B/n, equal to (n-1)/n + B/(nW), hence >= (n-1)/n; invariance under x -> a x + b (a != 0) and under permutation of chains; locality in the parameter; "
